@@ -17,6 +17,7 @@ import (
 	"context"
 	"fmt"
 	"math/big"
+	"strconv"
 	"strings"
 
 	"github.com/attestantio/go-block-relay/services/blockauctioneer"
@@ -33,6 +34,9 @@ import (
 	"go.opentelemetry.io/otel/attribute"
 	"go.opentelemetry.io/otel/trace"
 )
+
+// builderBidsCacheSlots is the number of slots for which cached builder bids are kept.
+const builderBidsCacheSlots = 32
 
 // AuctionBlock obtains the best available use of the block space.
 func (s *Service) AuctionBlock(ctx context.Context,
@@ -120,6 +124,12 @@ func (s *Service) cacheBid(_ context.Context,
 	subKey := fmt.Sprintf("%x:%x", parentHash, pubkey)
 	s.log.Trace().Str("key", key).Str("subkey", subKey).Msg("Caching bid")
 	s.builderBidsCacheMu.Lock()
+	// Remove the bids of slots long past; they can no longer be asked for.
+	for cachedKey := range s.builderBidsCache {
+		if cachedSlot, err := strconv.ParseUint(cachedKey, 10, 64); err == nil && cachedSlot+builderBidsCacheSlots < uint64(slot) {
+			delete(s.builderBidsCache, cachedKey)
+		}
+	}
 	if _, exists := s.builderBidsCache[key]; !exists {
 		s.builderBidsCache[key] = make(map[string]*builderspec.VersionedSignedBuilderBid)
 	}
